@@ -1,4 +1,5 @@
 #![allow(dead_code, clippy::all)]
+mod c01;
 mod c02;
 mod c03;
 mod c04;
@@ -75,6 +76,7 @@ fn main() {
         usage();
     }
     let code = match ctx.id.as_str() {
+        "C01" => c01::run(&ctx),
         "C02" => c02::run(&ctx),
         "C03" => c03::run(&ctx),
         "C04" => c04::run(&ctx),
@@ -101,6 +103,7 @@ fn main() {
 
 fn replay(id: &str, v: &serde_json::Value) -> i32 {
     match id {
+        "C01" => c01::replay(v),
         "C02" => c02::replay(v),
         "C03" => c03::replay(v),
         "C04" => c04::replay(v),
